@@ -4,6 +4,7 @@ from __future__ import annotations
 import ast
 
 from .. import cfg as C
+from ..amatch import AM
 from ..algebra import NotPolynomial, Poly, ToPoly
 from ..fold import Folder, Obj, Raised, Refuse
 from ..report import AnalysisError
@@ -28,29 +29,43 @@ def rule_a(ctx):
     m = ctx.model
     ctx.consult(RES)
     ctx.consult(DIM)
-    for qn, arr in (("Resize.__call__", "resized_img_array"), ("uniform_refinement", "array")):
+    for qn in ("Resize.__call__", "uniform_refinement"):
         f = m.func(RES, qn)
         p = f.params[-1] if qn == "Resize.__call__" else f.params[0]
         ctx.instance(R)
-        meta_writes = [norm(s) for s in ast.walk(f.node) if isinstance(s, ast.Assign) and isinstance(s.targets[0], ast.Subscript) and norm(s.targets[0].value) in ("meta", "metadata")]
-        rets = [norm(r.value) for r in ast.walk(f.node) if isinstance(r, ast.Return) and isinstance(r.value, ast.Call) and norm(r.value.func).startswith("type(")]
-        metas = [norm(s.value) for s in ast.walk(f.node) if isinstance(s, ast.Assign) and norm(s.targets[0]) == "meta"]
+        am = AM(f)
+        got = am.has(f.node, f"meta = {p}.metadata()") is not None and am.has(f.node, f"return type({p})(arr, **meta)") is not None
+        mname = am.actual("meta") or "meta"
+        meta_writes = [norm(s) for s in ast.walk(f.node) if isinstance(s, (ast.Assign, ast.AugAssign, ast.Delete)) for t in (s.targets if not isinstance(s, ast.AugAssign) else [s.target])
+                       if isinstance(t, ast.Subscript) and norm(t.value) == mname] + \
+                      [norm(c) for c in ast.walk(f.node) if isinstance(c, ast.Call) and isinstance(c.func, ast.Attribute) and norm(c.func.value) == mname and c.func.attr in ("pop", "update", "clear", "setdefault", "popitem")]
+        n_image_rets = sum(1 for r in ast.walk(f.node) if isinstance(r, ast.Return) and isinstance(r.value, ast.Call) and norm(r.value.func).startswith("type("))
         ctx.ob(R, f.qname, "result is type(img)(resampled array, **img.metadata()) with the metadata untouched",
-               rets == [f"type({p})({arr}, **meta)"] and metas == [f"{p}.metadata()"] and not meta_writes, f"{rets} {metas} {meta_writes}", f.node)
+               got and not meta_writes and n_image_rets == 1, f"{am.show()} {meta_writes}", f.node)
     f = m.func(RES, "equalize_voxel_size")
     ctx.instance(R)
-    env = {norm(s.targets[0]): norm(s.value) for s in f.node.body if isinstance(s, ast.Assign)}
-    ok = env.get("dimensions") == f"{f.params[0]}.dimensions" and env.get("shape") == "tuple((int(d / voxel_size) for d in dimensions))" and env.get("resize") == "Resize(shape=shape, interpolation=interpolation)"
-    ctx.ob(R, f.qname, "equalize_voxel_size resizes to dimensions / voxel_size voxels and keeps the dimensions", ok and [norm(r.value) for r in ast.walk(f.node) if isinstance(r, ast.Return)] == [f"resize({f.params[0]})"], str(env), f.node)
+    am = AM(f)
+    im, vs = f.params[0], f.params[1]
+    ok = all(am.has(f.node, t) is not None for t in (
+        f"dimensions = {im}.dimensions",
+        f"shape = tuple((int(d / {vs}) for d in dimensions))",
+        "rsz = Resize(shape=shape, interpolation=interpolation)",
+        f"return rsz({im})"))
+    ctx.ob(R, f.qname, "equalize_voxel_size resizes to dimensions / voxel_size voxels and keeps the dimensions", ok, str(am.show()), f.node)
     # AxisReduction metadata
     f = m.func(DIM, "AxisReduction.__call__")
     ctx.instance(R)
-    txt = [norm(s) for s in ast.walk(f.node) if isinstance(s, (ast.Assign, ast.Expr))]
     p = f.params[1]
-    ctx.ob(R, f.qname, "the dimension at the reduced matrix index is removed", f"new_dimensions = {p}.dimensions.copy()" in txt and "new_dimensions.pop(self.index)" in txt, "", f.node)
-    ctx.ob(R, f.qname, "the origin component at the reduced Cartesian axis is removed", "new_min_corner = min_corner.tolist()" in txt and "new_min_corner.pop(self.axis)" in txt and f"min_corner = {p}.origin.copy()" in txt, "", f.node)
-    meta = {s.targets[0].slice.value: norm(s.value) for s in ast.walk(f.node) if isinstance(s, ast.Assign) and isinstance(s.targets[0], ast.Subscript) and norm(s.targets[0].value) == "metadata" and isinstance(s.targets[0].slice, ast.Constant)}
-    ctx.ob(R, f.qname, "metadata: space_dim-1, reduced indexing, rebuilt origin, reduced dimensions", meta == {"space_dim": "new_dim", "indexing": "new_indexing", "origin": "new_origin", "dimensions": "new_dimensions"}, str(meta), f.node)
+    am = AM(f)
+    ctx.ob(R, f.qname, "the dimension at the reduced matrix index is removed", am.has(f.node, f"new_dimensions = {p}.dimensions.copy()") is not None and am.has(f.node, "new_dimensions.pop(self.index)") is not None, "", f.node)
+    ctx.ob(R, f.qname, "the origin component at the reduced Cartesian axis is removed", all(am.has(f.node, t) is not None for t in (f"min_corner = {p}.origin.copy()", "new_min_corner = min_corner.tolist()", "new_min_corner.pop(self.axis)", "new_origin = np.array(new_min_corner)")), "", f.node)
+    am.has(f.node, f"metadata = {p}.metadata()")
+    am.has(f.node, "new_dim = original_dim - 1")
+    am.has(f.node, f"original_dim = {p}.space_dim")
+    am.has(f.node, "new_indexing = 'ijk'[:new_dim]")
+    A = lambda k: am.actual(k) or k
+    meta = {s.targets[0].slice.value: norm(s.value) for s in ast.walk(f.node) if isinstance(s, ast.Assign) and isinstance(s.targets[0], ast.Subscript) and norm(s.targets[0].value) == A("metadata") and isinstance(s.targets[0].slice, ast.Constant)}
+    ctx.ob(R, f.qname, "metadata: space_dim-1, reduced indexing, rebuilt origin, reduced dimensions", meta == {"space_dim": A("new_dim"), "indexing": A("new_indexing"), "origin": A("new_origin"), "dimensions": A("new_dimensions")}, str(meta), f.node)
     # (index, axis) pair from the table, both branches
     T_i, _, _ = c20.extract_tables(ctx)
     init = m.func(DIM, "AxisReduction.__init__")
@@ -75,12 +90,16 @@ def rule_a(ctx):
     # extrusion
     f = m.func(DIM, "extrude_along_axis")
     ctx.instance(R)
-    meta = {s.targets[0].slice.value: norm(s.value) for s in ast.walk(f.node) if isinstance(s, ast.Assign) and isinstance(s.targets[0], ast.Subscript) and norm(s.targets[0].value) == "meta" and isinstance(s.targets[0].slice, ast.Constant)}
+    am = AM(f)
     h = f.params[1]
+    am.has(f.node, f"meta = {f.params[0]}.metadata()")
+    mn = am.actual("meta") or "meta"
+    meta = {s.targets[0].slice.value: norm(s.value) for s in ast.walk(f.node) if isinstance(s, ast.Assign) and isinstance(s.targets[0], ast.Subscript) and norm(s.targets[0].value) == mn and isinstance(s.targets[0].slice, ast.Constant)}
     ctx.ob(R, f.qname, "extrusion prepends the height to dimensions and origin and sets 3d matrix indexing",
-           meta == {"space_dim": "3", "dimensions": f"[{h}, *meta['dimensions']]", "indexing": "'ijk'", "origin": f"[{h}, *meta['origin']]"}, str(meta), f.node)
-    txt = [norm(s) for s in ast.walk(f.node) if isinstance(s, ast.Assign)]
-    ctx.ob(R, f.qname, "the new axis is matrix axis 0 of the array", f"arr_3d = np.zeros(({f.params[2]}, *shape), dtype=arr.dtype)" in txt and "arr_3d[i, ...] = arr" in txt, "", f.node)
+           meta == {"space_dim": "3", "dimensions": f"[{h}, *{mn}['dimensions']]", "indexing": "'ijk'", "origin": f"[{h}, *{mn}['origin']]"}, str(meta), f.node)
+    ok = all(am.has(f.node, t) is not None for t in (f"arr = {f.params[0]}.img", "shape = arr.shape", f"arr_3d = np.zeros(({f.params[2]}, *shape), dtype=arr.dtype)",
+                                                     f"for i in range({f.params[2]}):\n    arr_3d[i, ...] = arr", f"return type({f.params[0]})(img=arr_3d, **meta)"))
+    ctx.ob(R, f.qname, "the new axis is matrix axis 0 of the array", ok, str(am.show()), f.node)
     ctx.floor(R, 8)
 
 
@@ -92,13 +111,16 @@ def rule_b(ctx):
     f = m.func(DIM, "AxisReduction.__call__")
     p = f.params[1]
     ctx.instance(R)
-    txt = [norm(s) for s in ast.walk(f.node) if isinstance(s, (ast.Assign, ast.AugAssign))]
-    ctx.ob(R, f.qname, "sum along the reduced matrix axis", f"img_arr = np.sum({p}.img, axis=self.index)" in txt, "", f.node)
-    ctx.ob(R, f.qname, "average = that sum divided by the extent of the same axis", f"img_arr /= {p}.img.shape[self.index]" in txt or f"img_arr = img_arr / {p}.img.shape[self.index]" in txt, str([t for t in txt if "img_arr" in t][:4]), f.node)
-    # the division happens on the average branch only
+    am = AM(f)
+    ctx.ob(R, f.qname, "sum along the reduced matrix axis", am.has(f.node, f"img_arr = np.sum({p}.img, axis=self.index)") is not None, "", f.node)
+    an = am.actual("img_arr") or "img_arr"
     avg = [n for n in ast.walk(f.node) if isinstance(n, ast.If) and norm(n.test) == "self.mode == 'average'"]
-    ok = len(avg) == 1 and any("img_arr" in norm(s) and "shape[self.index]" in norm(s) for s in avg[0].body) and not any("shape[self.index]" in norm(s) for s in avg[0].orelse for s in [s])
-    ctx.ob(R, f.qname, "only the 'average' mode divides", ok, "", f.node)
+    div_ok = len(avg) == 1 and (am.eq_block(avg[0].body, [f"img_arr /= {p}.img.shape[self.index]"]) or am.eq_block(avg[0].body, [f"img_arr = img_arr / {p}.img.shape[self.index]"]))
+    ctx.ob(R, f.qname, "average = that sum divided by the extent of the same axis", div_ok, str([norm(x) for a in avg for x in a.body][:4]), f.node)
+    # the division happens on the average branch only
+    n_div = sum(1 for x in ast.walk(f.node) if (isinstance(x, ast.AugAssign) and isinstance(x.op, (ast.Div, ast.FloorDiv, ast.Mult)) and norm(x.target) == an)
+                or (isinstance(x, ast.Assign) and norm(x.targets[0]) == an and isinstance(x.value, ast.BinOp) and isinstance(x.value.op, (ast.Div, ast.FloorDiv, ast.Mult))))
+    ctx.ob(R, f.qname, "only the 'average' mode rescales the sum", div_ok and n_div == 1, f"{n_div} rescaling statement(s)", f.node)
     modes = sorted({x.value for c in ast.walk(f.node) if isinstance(c, ast.Compare) and norm(c.left) == "self.mode" for cc in c.comparators for x in ast.walk(cc) if isinstance(x, ast.Constant) and isinstance(x.value, str)})
     ctx.ob(R, f.qname, "mode vocabulary {average, sum, slice}", modes == ["average", "slice", "sum"], str(modes), f.node)
     ctx.floor(R, 1)
@@ -116,6 +138,12 @@ def rule_c(ctx):
     st = blk[0].body
     ok = False
     desc = ""
+    am = AM(f)
+    pimg = f.params[1]
+    src_ok = am.has(f.node, f"img_array = {pimg}.img.copy() if input_is_image else {pimg}.copy()") is not None and am.has(f.node, f"input_is_image = isinstance({pimg}, darsia.Image)") is not None
+    res_ok = am.has(f.node, "resized_img_array = np.reshape(resized_multi_channel_img_array, resized_shape)") is not None \
+        and am.has(f.node, "resized_multi_channel_img_array = cv2.merge(resized_channels)") is not None
+    IN, OUT = am.actual("img_array") or "img_array", am.actual("resized_img_array") or "resized_img_array"
     if len(st) == 1 and isinstance(st[0], ast.AugAssign) and isinstance(st[0].op, ast.Mult):
         tgt = norm(st[0].target)
         desc = norm(st[0])
@@ -125,17 +153,18 @@ def rule_c(ctx):
                     return "prod(" + norm(n.args[0]) + ")"
                 return None
             pf = ToPoly(atomize=atom)(st[0].value)
-            ok = tgt == "resized_img_array" and pf == Poly.atom("prod(img_array.shape[:2])") / Poly.atom("prod(resized_img_array.shape[:2])")
+            ok = res_ok and tgt == OUT and pf == Poly.atom(f"prod({IN}.shape[:2])") / Poly.atom(f"prod({OUT}.shape[:2])")
         except NotPolynomial:
             ok = False
     ctx.ob(R, f.qname, "factor = prod(input voxels) / prod(output voxels), applied to the resized array", ok, desc, blk[0])
     # order: after merge/reshape, before return
     body = f.node.body
     i_blk = body.index(blk[0])
-    i_merge = max(i for i, s in enumerate(body) if "cv2.merge" in norm(s) or "np.reshape(resized_multi_channel_img_array" in norm(s))
-    ctx.ob(R, f.qname, "the factor is applied after the channels are merged (all channels alike)", i_merge < i_blk, f"merge at {i_merge}, factor at {i_blk}", blk[0])
-    src = [norm(s.value) for s in body if isinstance(s, ast.Assign) and norm(s.targets[0]) == "img_array"]
-    ctx.ob(R, f.qname, "the input array of the ratio is the array actually resized (a copy of the input data)", src[:1] == [f"{f.params[1]}.img.copy() if input_is_image else {f.params[1]}.copy()"], str(src), f.node)
+    merges = [i for i, s in enumerate(body) if isinstance(s, ast.Assign) and norm(s.targets[0]) == OUT]
+    ctx.ob(R, f.qname, "the factor is applied after the channels are merged (all channels alike)", res_ok and merges and max(merges) < i_blk, f"merge at {merges}, factor at {i_blk}", blk[0])
+    ctx.ob(R, f.qname, "the input array of the ratio is the array actually resized (a copy of the input data)", src_ok, str(am.show()), f.node)
+    rets = [norm(r.value) for r in ast.walk(f.node) if isinstance(r, ast.Return) and r.value is not None]
+    ctx.ob(R, f.qname, "the rescaled array is what is returned (as array or wrapped)", len(rets) == 2 and all(OUT in {x.id for x in ast.walk(ast.parse(t, mode='eval')) if isinstance(x, ast.Name)} for t in rets), str(rets), f.node)
     ctx.floor(R, 1)
 
 
@@ -148,21 +177,25 @@ def rule_d(ctx):
     f = m.func(RES, "uniform_refinement")
     ctx.instance(R)
     img = f.params[0]
-    txt = [norm(s) for s in ast.walk(f.node) if isinstance(s, ast.Assign)]
-    ctx.ob(R, f.qname, "refinement repeats twice along each of range(space_dim)", "array = np.repeat(array, 2, axis=i)" in txt, "", f.node)
-    ctx.ob(R, f.qname, "coarsening uses the 0::2 and 1::2 slices of the same axis", "slice_0 = i_slice(slice(0, None, 2))" in txt and "slice_1 = i_slice(slice(1, None, 2))" in txt
-           and "sub_array_0 = array[slice_0]" in txt and "sub_array_1 = array[slice_1]" in txt, "", f.node)
-    # def-use inside the coarsening loop
+    am = AM(f)
+    ctx.ob(R, f.qname, "refinement repeats twice along each of range(space_dim)", am.has(f.node, f"array = {img}.img.copy()") is not None
+           and am.has(f.node, f"for i in range({img}.space_dim):\n    array = np.repeat(array, 2, axis=i)") is not None, "", f.node)
+    ARR = am.actual("array") or "array"
     loops = [l for l in ast.walk(f.node) if isinstance(l, ast.For) and norm(l.iter) == f"range({img}.space_dim)"]
-    coarse = [l for l in loops if any("slice_0" in norm(s) for s in l.body)]
+    coarse = [l for l in loops if any(isinstance(x, ast.FunctionDef) for x in l.body)]
     ctx.need(len(coarse) == 1, "uniform_refinement: coarsening loop not found")
     lp = coarse[0]
+    helper = [x for x in lp.body if isinstance(x, ast.FunctionDef)][0].name
+    am2 = AM(f)
+    am2.has(f.node, f"array = {img}.img.copy()")
+    sl_ok = all(am2.has(lp, t) is not None for t in (f"slice_0 = {helper}(slice(0, None, 2))", f"slice_1 = {helper}(slice(1, None, 2))", "sub_array_0 = array[slice_0]", "sub_array_1 = array[slice_1]"))
+    ctx.ob(R, f.qname, "coarsening uses the 0::2 and 1::2 slices of the same axis", sl_ok, str(am2.show()), f.node)
     assigned = {}
     for s in lp.body:
         if isinstance(s, ast.Assign) and isinstance(s.targets[0], ast.Name):
             assigned[s.targets[0].id] = s
     # backward slice from `array`
-    need = {"array"}
+    need = {ARR}
     changed = True
     while changed:
         changed = False
@@ -184,9 +217,12 @@ def rule_d(ctx):
     for nme, s in sorted(assigned.items()):
         ctx.ob(R, f.qname, f"value `{nme}` computed in the coarsening step flows into the result", nme in need,
                f"`{norm(s)[:70]}` is computed and dropped: the combination does not use it", s)
-    al = assigned.get("axis_length")
-    if al is not None:
-        ctx.ob(R, f.qname, "the axis length is read from the running array", norm(al.value) == "array.shape[i]", f"{norm(al)}: after the first coarsened axis or level the running array is shorter than the original image", al)
+    # the length tested for oddness must be read from the running array, on the loop axis
+    odd = [n for n in ast.walk(lp) if isinstance(n, ast.If) and isinstance(n.test, ast.Compare) and isinstance(n.test.left, ast.BinOp) and isinstance(n.test.left.op, ast.Mod)]
+    ctx.need(len(odd) == 1 and isinstance(odd[0].test.left.left, ast.Name), "uniform_refinement: odd-length test not found")
+    al = assigned.get(odd[0].test.left.left.id)
+    ctx.ob(R, f.qname, "the axis length is read from the running array", al is not None and norm(al.value) == f"{ARR}.shape[{norm(lp.target)}]",
+           f"{norm(al) if al is not None else None}: after the first coarsened axis or level the running array is shorter than the original image", al or lp)
     ctx.floor(R, 1)
 
 
@@ -196,12 +232,20 @@ def rule_e(ctx):
              "(an expression statement such as `flag == value` binds nothing), and the chains end in raise")
     m = ctx.model
     ctx.consult(SUB)
-    for mod, qn, var, flag in ((RES, "Resize.__init__", "interpolation_pre", "self.interpolation"), (SUB, "extract_quadrilateral_ROI", "interpolation", "interpolation_flag")):
+    def is_arm(n):
+        return isinstance(n, ast.If) and isinstance(n.test, ast.Compare) and isinstance(n.test.left, ast.Name) and len(n.test.comparators) == 1 and \
+            ((isinstance(n.test.comparators[0], ast.Constant) and (n.test.comparators[0].value is None or str(n.test.comparators[0].value).startswith("inter_"))))
+
+    for mod, qn, flag_of in ((RES, "Resize.__init__", lambda f: "self.interpolation"),
+                             (SUB, "extract_quadrilateral_ROI", lambda f: next((norm(k.value) for c in ast.walk(f.node) if isinstance(c, ast.Call) and norm(c.func) == "cv2.warpPerspective"
+                                                                                for k in c.keywords if k.arg == "flags"), None))):
         f = m.func(mod, qn)
-        chain = [n for n in ast.walk(f.node) if isinstance(n, ast.If) and isinstance(n.test, ast.Compare) and norm(n.test.left) == var and isinstance(getattr(n, "_parent", None), (ast.FunctionDef,)) or
-                 (isinstance(n, ast.If) and isinstance(n.test, ast.Compare) and norm(n.test.left) == var and not (isinstance(getattr(n, "_parent", None), ast.If) and n in getattr(n._parent, "orelse", [])))]
-        chain = [c for c in chain if isinstance(c.test.comparators[0], ast.Constant) or norm(c.test.comparators[0]) == "None"]
-        ctx.need(chain, f"{f.qname}: interpolation chain not found")
+        flag = flag_of(f)
+        ctx.need(flag is not None, f"{f.qname}: interpolation flag consumer not found")
+        # the chain is located by shape: an if/elif chain comparing one name with None / 'inter_*' literals (not an elif of another arm)
+        chain = [n for n in ast.walk(f.node) if is_arm(n) and not (isinstance(getattr(n, "_parent", None), ast.If) and n in n._parent.orelse and is_arm(n._parent))]
+        chain = [c for c in chain if len(c.orelse) == 1 and is_arm(c.orelse[0]) and norm(c.orelse[0].test.left) == norm(c.test.left)]
+        ctx.need(len(chain) == 1, f"{f.qname}: interpolation chain not found")
         cur = chain[0]
         n_arm = 0
         while True:
